@@ -26,7 +26,8 @@ will be built at, the nonce handed out by the round's bookkeeping, zero fees. -/
 def simMultiEnvOk (n : Node) (fs : List (String × String)) (nonce : Nat) : Bool :=
   field fs "number" == toString n.nextHeight && field fs "nonce" == toString nonce &&
   field fs "basefee" == "0" && field fs "gasprice" == "0" && field fs "value" == "0" &&
-  field fs "coinbase" == "0000000000000000000000000000000000000000"
+  field fs "coinbase" == "0000000000000000000000000000000000000000" &&
+  field fs "blockgaslimit" == blockGasLimit
 
 /-- the entry of `nonces` for caller `c` (seeded with the account nonce) -/
 def nonceEntry (acct : String → Nat) (m : AMap String Nat) (c : String) : Nat :=
